@@ -13,6 +13,7 @@
  *   RTFS_LOG=<file>      one line per call, written with a raw write(2) before
  *                        and after the call so that it survives SIGKILL:
  *                        "<N> <kind> <path> <size> <result> <errno> <hex|->"
+ *                        (hex = the whole buffer handed to write())
  *   RTFS_KILL_AT=N       raise SIGKILL just before the N-th call
  *   RTFS_FAULT_AT=N      make the N-th call fail with errno RTFS_FAULT_ERRNO
  *                        (default ENOSPC=28) without performing it, or, with
@@ -271,7 +272,7 @@ ssize_t write(int fd, const void *buf, size_t count)
 		r = r_write(fd, buf, count);
 		en = errno;
 	}
-	leave(n, "write", p, (long) count, (long) r, r < 0 ? en : 0, buf, r > 0 ? (size_t) r : 0);
+	leave(n, "write", p, (long) count, (long) r, r < 0 ? en : 0, buf, count);
 	errno = en;
 	return r;
 }
